@@ -4091,26 +4091,25 @@ impl Context {
         self.document.as_document().unwrap()
     }
 
+    fn declared_entity(&self, name: &str) -> Option<XmlNode<XmlEntity>> {
+        let declaration = self.document().borrow().document_declaration()?;
+        let entity = declaration
+            .borrow()
+            .entities()
+            .iter()
+            .find(|v| v.borrow().name() == name)
+            .cloned();
+        entity
+    }
+
     pub fn entity(&self, name: &str) -> error::Result<XmlNode<XmlEntity>> {
-        if let Some(declaration) = self.document().borrow().document_declaration() {
-            if let Some(v) = declaration
-                .borrow()
-                .entities()
-                .iter()
-                .find(|v| v.borrow().name() == name)
-                .cloned()
-            {
-                return Ok(v);
-            }
+        if let Some(v) = self.declared_entity(name) {
+            return Ok(v);
         }
 
-        match name {
-            "lt" => Ok(node(XmlEntity::from(("lt", "<", self)))),
-            "gt" => Ok(node(XmlEntity::from(("gt", ">", self)))),
-            "amp" => Ok(node(XmlEntity::from(("amp", "&", self)))),
-            "apos" => Ok(node(XmlEntity::from(("apos", "'", self)))),
-            "quot" => Ok(node(XmlEntity::from(("quot", "\"", self)))),
-            _ => Err(error::Error::NotFoundReference(name.to_string())),
+        match predefined_entity(name) {
+            Some(v) => Ok(node(XmlEntity::from((name, v, self)))),
+            None => Err(error::Error::NotFoundReference(name.to_string())),
         }
     }
 
@@ -4246,37 +4245,125 @@ fn attr_value_from_name(name: &str, context: &Context) -> error::Result<String> 
 fn entity_value_from_name(name: &str, context: &Context, normalize: bool) -> error::Result<String> {
     #[cfg(xml_rs_verif)]
     xml_nom::verif::tick();
-    let entity = context.entity(name)?;
+    let entity = match context.declared_entity(name) {
+        Some(v) => v,
+        None => {
+            // The predefined entities stand for the character itself (XML 1.0 4.6).
+            return predefined_entity(name)
+                .map(|v| v.to_string())
+                .ok_or_else(|| error::Error::NotFoundReference(name.to_string()));
+        }
+    };
+
+    // Included (XML 1.0 4.4.2, 4.4.5): the replacement text is processed like text of the
+    // document, so references that it spells (e.g. through "&#38;") are recognized here.
+    let replacement = entity_replacement_text(&entity)?;
     let mut parsed = String::new();
+    for piece in scan_replacement_text(replacement.as_str())? {
+        match piece {
+            ReplacementPiece::Text(v) if normalize => parsed.push_str(normalize_ws(v).as_str()),
+            ReplacementPiece::Text(v) => parsed.push_str(v),
+            ReplacementPiece::Character(v) => parsed.push(v),
+            ReplacementPiece::Entity(v) => {
+                let v = entity_value_from_name(v, context, normalize)?;
+                parsed.push_str(v.as_str());
+            }
+        }
+    }
+    Ok(parsed)
+}
+
+fn predefined_entity(name: &str) -> Option<&'static str> {
+    match name {
+        "lt" => Some("<"),
+        "gt" => Some(">"),
+        "amp" => Some("&"),
+        "apos" => Some("'"),
+        "quot" => Some("\""),
+        _ => None,
+    }
+}
+
+/// Replacement text of an internal entity (XML 1.0 4.5): character references of the literal
+/// are replaced, general-entity references are left as they are.
+fn entity_replacement_text(entity: &XmlNode<XmlEntity>) -> error::Result<String> {
+    let mut text = String::new();
     for value in entity.borrow().values().unwrap_or_default() {
-        match &value {
+        match value {
             XmlEntityValue::Character(v, r) => {
                 let ch = match r {
                     10 => char_from_char10(v)?,
                     16 => char_from_char16(v)?,
                     _ => unreachable!(),
                 };
-                // A character reference in an entity literal is part of the replacement
-                // text, so it is normalized like any other character of that text.
-                if normalize {
-                    parsed.push_str(normalize_ws(ch.to_string().as_str()).as_str());
-                } else {
-                    parsed.push(ch);
-                }
+                text.push(ch);
             }
             XmlEntityValue::Entity(v) => {
-                let v = entity_value_from_name(v, context, normalize)?;
-                parsed.push_str(v.as_str());
+                text.push('&');
+                text.push_str(v);
+                text.push(';');
             }
             XmlEntityValue::Parameter(v) => {
                 // Not support parameter entity reference.
                 return Err(error::Error::InvalidData(format!("%{};", v)));
             }
-            XmlEntityValue::Text(v) if normalize => parsed.push_str(normalize_ws(v).as_str()),
-            XmlEntityValue::Text(v) => parsed.push_str(v.as_str()),
+            XmlEntityValue::Text(v) => text.push_str(v.as_str()),
         }
     }
-    Ok(parsed)
+    Ok(text)
+}
+
+enum ReplacementPiece<'a> {
+    Text(&'a str),
+    Character(char),
+    Entity(&'a str),
+}
+
+/// Splits replacement text at its references. An ampersand that does not start a reference
+/// is an error: the replacement text has to match the production for content.
+fn scan_replacement_text(text: &str) -> error::Result<Vec<ReplacementPiece<'_>>> {
+    let mut pieces = vec![];
+    let mut rest = text;
+    while let Some(pos) = rest.find('&') {
+        if pos > 0 {
+            pieces.push(ReplacementPiece::Text(&rest[..pos]));
+        }
+        let tail = &rest[pos + 1..];
+        let end = tail
+            .find(';')
+            .ok_or_else(|| error::Error::InvalidData(rest[pos..].to_string()))?;
+        let reference = &tail[..end];
+        if let Some(v) = reference.strip_prefix("#x") {
+            if v.is_empty() || !v.chars().all(|c| c.is_ascii_hexdigit()) {
+                return Err(error::Error::InvalidData(format!("&{};", reference)));
+            }
+            pieces.push(ReplacementPiece::Character(legal_char(char_from_char16(v)?)?));
+        } else if let Some(v) = reference.strip_prefix('#') {
+            if v.is_empty() || !v.chars().all(|c| c.is_ascii_digit()) {
+                return Err(error::Error::InvalidData(format!("&{};", reference)));
+            }
+            pieces.push(ReplacementPiece::Character(legal_char(char_from_char10(v)?)?));
+        } else {
+            if reference.is_empty() || !reference.chars().all(xml_nom::xmlchar::is_name_char) {
+                return Err(error::Error::InvalidData(format!("&{};", reference)));
+            }
+            pieces.push(ReplacementPiece::Entity(reference));
+        }
+        rest = &tail[end + 1..];
+    }
+    if !rest.is_empty() {
+        pieces.push(ReplacementPiece::Text(rest));
+    }
+    Ok(pieces)
+}
+
+/// WFC: Legal Character
+fn legal_char(value: char) -> error::Result<char> {
+    if xml_nom::xmlchar::is_char(value) {
+        Ok(value)
+    } else {
+        Err(error::Error::InvalidData(format!("#x{:X}", value as u32)))
+    }
 }
 
 /// WFC: No Recursion (and WFC: Entity Declared for references inside entity values).
@@ -4294,10 +4381,15 @@ fn check_entity_recursion(
         return Err(error::Error::InvalidData(name.to_string()));
     }
 
-    let entity = context.entity(name)?;
+    let entity = match context.declared_entity(name) {
+        Some(v) => v,
+        None if predefined_entity(name).is_some() => return Ok(()),
+        None => return Err(error::Error::NotFoundReference(name.to_string())),
+    };
     path.push(name.to_string());
-    for value in entity.borrow().values().unwrap_or_default() {
-        if let XmlEntityValue::Entity(v) = value {
+    let replacement = entity_replacement_text(&entity)?;
+    for piece in scan_replacement_text(replacement.as_str())? {
+        if let ReplacementPiece::Entity(v) = piece {
             check_entity_recursion(v, context, path, done)?;
         }
     }
